@@ -18,6 +18,7 @@
 #include <algorithm>
 #include <functional>
 #include <set>
+#include <sys/resource.h>
 #include <thread>
 
 #include "C08_ref.hh"
@@ -699,7 +700,13 @@ ChildResult run_child(F&& f, int timeout_s) {
   if (p < 0) { perror("fork"); _exit(3); }
   if (p == 0) {
     close(fds[0]);
-    alarm(timeout_s);
+    // the limit is CPU time of the child (a broken wide printf spins), so that a heavily loaded machine does not turn
+    // a slow but correct case into a "hang"; the wall-clock alarm is only a backstop for a child that blocks
+    struct rlimit rl;
+    rl.rlim_cur = (rlim_t)timeout_s;
+    rl.rlim_max = (rlim_t)timeout_s + 2;
+    setrlimit(RLIMIT_CPU, &rl);
+    alarm(timeout_s * 15);
     string out = f();
     size_t off = 0;
     while (off < out.size()) {
@@ -725,42 +732,52 @@ ChildResult run_child(F&& f, int timeout_s) {
 struct WCase {
   string what;
   std::function<wstring(bool)> real;  // argument: through wstring_vprintf directly?
-  wstring want;
+  std::function<wstring()> want;      // built on demand: the size ladder reaches 1 Mi characters
 };
 
 string render_w(const wstring& w) { return vf::fmt("%zu:", w.size()) + string((const char*)w.data(), w.size() * sizeof(wchar_t)) + ";"; }
 
+wstring wtext(size_t L) {
+  wstring text = wpattern(L);
+  for (wchar_t& c : text) if (c == L'%') c = L'_';
+  return text;
+}
+WCase fixed_wcase(const string& what, std::function<wstring(bool)> real, const wstring& want) {
+  return WCase{what, real, [want] { return want; }};
+}
+
+// result lengths: the boundary set of round 2 plus the size ladder 2^k-1, 2^k, 2^k+1 (quick: k = 8..17 and 2^18-1, 2^19,
+// 2^20; thorough: every length 0..130 and k = 8..20 up to 1 Mi characters)
+vector<size_t> wprintf_lengths(bool thorough) {
+  std::set<size_t> lens = {0, 1, 2, 3, 4, 7, 8, 9, 15, 16, 17, 255, 256, 257, 1023, 1024, 1025, 4096, 65536, 1048576};
+  if (thorough) for (size_t L = 0; L <= 130; L++) lens.insert(L);
+  for (int k = 8; k <= (thorough ? 20 : 17); k++)
+    for (int d = -1; d <= 1; d++) lens.insert(((size_t)1 << k) + d);
+  if (!thorough) {
+    lens.insert(((size_t)1 << 18) - 1);
+    lens.insert((size_t)1 << 19);
+  }
+  vector<size_t> out;
+  for (size_t L : lens) if (L <= 1048576) out.push_back(L);
+  return out;
+}
+
 vector<WCase> build_wcases(bool thorough) {
   vector<WCase> cs;
-  vector<size_t> lens = {0, 1, 2, 3, 4, 7, 8, 9, 15, 16, 17, 255, 256, 257, 1023, 1024, 1025, 4096, 65536, 1048576};
-  if (thorough) {
-    lens.clear();
-    for (size_t L = 0; L <= 130; L++) lens.push_back(L);
-    for (size_t L : {(size_t)255, (size_t)256, (size_t)257, (size_t)511, (size_t)512, (size_t)513, (size_t)1023, (size_t)1024, (size_t)1025, (size_t)4095, (size_t)4096, (size_t)4097, (size_t)65535, (size_t)65536, (size_t)65537, (size_t)1048575, (size_t)1048576}) lens.push_back(L);
-  }
-  for (size_t L : lens) {
-    {
-      wstring text = wpattern(L);
-      for (wchar_t& c : text) if (c == L'%') c = L'_';
-      cs.push_back({vf::fmt("(<%zu wide characters without conversions>)", L), [text](bool v) { return v ? via_wvprintf(text.c_str()) : phosg::wstring_printf(text.c_str()); }, text});
-    }
-    {
-      wstring arg = wpattern(L);
-      cs.push_back({vf::fmt("(L\"%%ls\", <%zu wide characters>)", L), [arg](bool v) { return v ? via_wvprintf(L"%ls", arg.c_str()) : phosg::wstring_printf(L"%ls", arg.c_str()); }, arg});
-    }
-    if (L >= 1) cs.push_back({vf::fmt("(L\"%%*d\", %zu, 7)", L), [L](bool v) { return v ? via_wvprintf(L"%*d", (int)L, 7) : phosg::wstring_printf(L"%*d", (int)L, 7); }, wstring(L - 1, L' ') + L"7"});
-    {
-      string arg = pattern(L);
-      cs.push_back({vf::fmt("(L\"[%%s]\", <%zu narrow ASCII characters>)", L), [arg](bool v) { return v ? via_wvprintf(L"[%s]", arg.c_str()) : phosg::wstring_printf(L"[%s]", arg.c_str()); }, L"[" + widen(arg) + L"]"});
-    }
+  for (size_t L : wprintf_lengths(thorough)) {
+    // arguments and expectations are built inside the case (in the child / after take()), not here
+    cs.push_back({vf::fmt("(<%zu wide characters without conversions>)", L), [L](bool v) { wstring text = wtext(L); return v ? via_wvprintf(text.c_str()) : phosg::wstring_printf(text.c_str()); }, [L] { return wtext(L); }});
+    cs.push_back({vf::fmt("(L\"%%ls\", <%zu wide characters>)", L), [L](bool v) { wstring arg = wpattern(L); return v ? via_wvprintf(L"%ls", arg.c_str()) : phosg::wstring_printf(L"%ls", arg.c_str()); }, [L] { return wpattern(L); }});
+    if (L >= 1) cs.push_back({vf::fmt("(L\"%%*d\", %zu, 7)", L), [L](bool v) { return v ? via_wvprintf(L"%*d", (int)L, 7) : phosg::wstring_printf(L"%*d", (int)L, 7); }, [L] { return wstring(L - 1, L' ') + L"7"; }});
+    cs.push_back({vf::fmt("(L\"[%%s]\", <%zu narrow ASCII characters>)", L), [L](bool v) { string arg = pattern(L); return v ? via_wvprintf(L"[%s]", arg.c_str()) : phosg::wstring_printf(L"[%s]", arg.c_str()); }, [L] { return L"[" + widen(pattern(L)) + L"]"; }});
   }
   for (int x : {0, 7, 12345, INT32_MIN}) {
     string digits = std::to_string(x);
-    cs.push_back({vf::fmt("(L\"%%d\", %d)", x), [x](bool v) { return v ? via_wvprintf(L"%d", x) : phosg::wstring_printf(L"%d", x); }, widen(digits)});
+    cs.push_back(fixed_wcase(vf::fmt("(L\"%%d\", %d)", x), [x](bool v) { return v ? via_wvprintf(L"%d", x) : phosg::wstring_printf(L"%d", x); }, widen(digits)));
   }
-  cs.push_back({"(L\"%lc%ls%lc\", NUL, L\"mid\", NUL)", [](bool v) { return v ? via_wvprintf(L"%lc%ls%lc", (wint_t)0, L"mid", (wint_t)0) : phosg::wstring_printf(L"%lc%ls%lc", (wint_t)0, L"mid", (wint_t)0); }, wstring(1, L'\0') + L"mid" + wstring(1, L'\0')});
-  cs.push_back({"(L\"%.3f|%ls|%lld\", -1.5, L\"w\", -9000000000)", [](bool v) { return v ? via_wvprintf(L"%.3f|%ls|%lld", -1.5, L"w", -9000000000ll) : phosg::wstring_printf(L"%.3f|%ls|%lld", -1.5, L"w", -9000000000ll); }, L"-1.500|w|-9000000000"});
-  cs.push_back({"(L\"%%\")", [](bool v) { return v ? via_wvprintf(L"%%") : phosg::wstring_printf(L"%%"); }, L"%"});
+  cs.push_back(fixed_wcase("(L\"%lc%ls%lc\", NUL, L\"mid\", NUL)", [](bool v) { return v ? via_wvprintf(L"%lc%ls%lc", (wint_t)0, L"mid", (wint_t)0) : phosg::wstring_printf(L"%lc%ls%lc", (wint_t)0, L"mid", (wint_t)0); }, wstring(1, L'\0') + L"mid" + wstring(1, L'\0')));
+  cs.push_back(fixed_wcase("(L\"%.3f|%ls|%lld\", -1.5, L\"w\", -9000000000)", [](bool v) { return v ? via_wvprintf(L"%.3f|%ls|%lld", -1.5, L"w", -9000000000ll) : phosg::wstring_printf(L"%.3f|%ls|%lld", -1.5, L"w", -9000000000ll); }, L"-1.500|w|-9000000000"));
+  cs.push_back(fixed_wcase("(L\"%%\")", [](bool v) { return v ? via_wvprintf(L"%%") : phosg::wstring_printf(L"%%"); }, L"%"));
   return cs;
 }
 
@@ -771,8 +788,8 @@ VF_SECTION(wprintf, 16, 16, 120) {
   const int timeout_s = 6;
   const vector<WCase> cs = build_wcases(r.thorough());
   auto judge = [&](const string& what, const ChildResult& res, const string& want_bytes, size_t n_results) {
-    if (WIFSIGNALED(res.status) && WTERMSIG(res.status) == SIGALRM) {
-      r.fail("wstring_printf:hangs", [&] { return "wstring_printf / wstring_vprintf " + what + vf::fmt(" did not return within %d s", timeout_s); });
+    if (WIFSIGNALED(res.status) && (WTERMSIG(res.status) == SIGXCPU || WTERMSIG(res.status) == SIGKILL || WTERMSIG(res.status) == SIGALRM)) {
+      r.fail("wstring_printf:hangs", [&] { return "wstring_printf / wstring_vprintf " + what + vf::fmt(" did not return within %d s of CPU time (or %d s of wall time)", timeout_s, timeout_s * 15); });
     } else if (!WIFEXITED(res.status) || WEXITSTATUS(res.status) != 0) {
       r.fail("wstring_printf:crashes", [&] { return "wstring_printf / wstring_vprintf " + what + (WIFSIGNALED(res.status) ? vf::fmt(" died with signal %d", WTERMSIG(res.status)) : vf::fmt(" ended the process with status %d (AddressSanitizer report or uncaught exception)", WEXITSTATUS(res.status))); });
     } else if (res.bytes != want_bytes) {
@@ -788,7 +805,8 @@ VF_SECTION(wprintf, 16, 16, 120) {
     if (r.wants_desc()) r.desc("wstring_printf and wstring_vprintf " + c.what);
     r.nontriv();
     ChildResult res = run_child([&] { return guarded([&] { return render_w(c.real(false)) + render_w(c.real(true)); }); }, timeout_s);
-    if (judge(c.what, res, render_w(c.want) + render_w(c.want), 2)) r.ok(c.want.size() > 1024 ? "result longer than 1024 characters" : "result up to 1024 characters");
+    const wstring want = c.want();
+    if (judge(c.what, res, render_w(want) + render_w(want), 2)) r.ok(want.size() > 1024 ? "result longer than 1024 characters" : "result up to 1024 characters");
   }
   // (b) histories: long-then-short, short-then-long, A-B-A over four size classes of %ls and of plain text
   r.note("wstring_printf histories");
@@ -817,6 +835,7 @@ VF_SECTION(wprintf, 16, 16, 120) {
             if (judge(what, res, want, aba ? 3 : 2)) r.ok("history");
           }
   }
-  r.bound = vf::fmt("wstring_printf and wstring_vprintf: plain text, L\"%%ls\", L\"%%*d\", L\"[%%s]\" with %zu result lengths from 0 to 1 Mi characters (quick: boundary set; thorough: every length 0..130 and the 2^k neighbourhoods), L\"%%d\" on 4 values, NUL characters through %%lc, mixed arguments, L\"%%%%\"; "
-      "64 histories (pairs and A-B-A over result sizes {0,3,300,70000}); every case in a child process with a %d s limit", (size_t)(r.thorough() ? 148 : 20), timeout_s);
+  r.bound = vf::fmt("wstring_printf and wstring_vprintf: plain text, L\"%%ls\", L\"%%*d\", L\"[%%s]\" with %zu result lengths from 0 to 1 Mi characters (quick: boundary set {0..4,7,8,9,15,16,17,1023..1025,4096} and the size ladder 2^k-1, 2^k, 2^k+1 for k = 8..17, 2^18-1, 2^19, 2^20; "
+      "thorough: every length 0..130 and the ladder for k = 8..20), L\"%%d\" on 4 values, NUL characters through %%lc, mixed arguments, L\"%%%%\"; "
+      "64 histories (pairs and A-B-A over result sizes {0,3,300,70000}); every case in a child process with a %d s CPU-time limit", wprintf_lengths(r.thorough()).size(), timeout_s);
 }
